@@ -235,3 +235,36 @@ package dotgit
 //gvc:  results hashes err
 //gvc:  ensures tight: err == nil && old(d.options.ExclusiveAccess) && len(prefix) >= 1 && len(hashes) > 0 ==> cap(hashes) == len(hashes)
 //gvc:end
+
+// The pack-side twin of the loose-object announcement (property C18): a pack
+// list built while a pack writer is open does not contain the new pack, so the
+// writer tells its owner when the pack has reached its permanent place and the
+// cached pack catalog is dropped again at that point.
+//gvc:ghost PackWriter.announced nat
+
+//gvc:func field:PackWriter.saved
+//gvc:  props C18
+//gvc:  modifies holder.#announced
+//gvc:  ensures holder.#announced == old(holder.#announced) + 1
+//gvc:end
+
+//gvc:func (*PackWriter).Close
+//gvc:  props C18
+//gvc:  theory int
+//gvc:  opt coarse
+//gvc:  opt frame args
+//gvc:  requires nn: w != nil
+//gvc:  modifies w.#announced
+//gvc:  ensures told: result == nil && w.saved != nil && calls("save") == 1 ==> w.#announced == old(w.#announced) + 1
+//gvc:  ensures quiet: result != nil ==> w.#announced == old(w.#announced)
+//gvc:end
+
+//gvc:func (*DotGit).NewObjectPack
+//gvc:  props C18
+//gvc:  theory int
+//gvc:  opt coarse
+//gvc:  opt frame args
+//gvc:  results pw err
+//gvc:  requires nn: d != nil
+//gvc:  ensures hooked: err == nil ==> pw != nil && pw.saved != nil
+//gvc:end
